@@ -48,6 +48,9 @@ type TestSpec struct {
 	Arg  D      // cmp / slcontains / tcmp argument
 	Args []D    // oneof
 	Opts TOpts
+	// Reuse: the callback test is built once with z.TestFunc(code, fn), copied by value, the copy is
+	// specialised with the options and registered with schema.Test(copy)
+	Reuse bool
 }
 
 func (t TestSpec) Sx(ext *Ext) *sx.Node {
